@@ -7,6 +7,9 @@ CHECKS = {
  "C01": dict(level="exploration", technique="differential runtime monitor: CPython ast.parse as oracle over corpus, perturbed and generated programs",
    text="Every case is a real execution of the working tree's parser (tables regenerated from the current grammar) compared node-for-node with CPython's tree and compile() outcome; held means no unlisted difference on the ~30k (quick) / ~600k (thorough) CPython-valid programs actually parsed.",
    note="Trusts CPython's parser as reference and vlib/astnorm.py's normal form (positions, Constant.kind, type_comment ignored). Programs outside the corpus/perturbation/generator classes are not covered; constructs behind listed known findings are only exercised by their directed witnesses.", ref="§2 C01"),
+ "C15": dict(level="exploration", technique="reference-model monitor + logical step counter on the real Aliases/SubprocSpec objects",
+   text="Random alias graphs (cycles, self-loops, decorator / return_command / exec-string / callable aliases) are resolved through the real Aliases.get and SubprocSpec.build in three insertion orders; a frame counter on eval_alias decides termination, a 25-line reference expander decides the result, decorator order and the user-arguments-are-a-suffix invariant; callable aliases re-entering themselves through the execer exercise $__ALIAS_STACK.",
+   note="Alias tokens in generated tables are free of $/~ so expand_path is the identity on them; the reference expander encodes the documented leftmost-expansion rule; graphs larger than 8 aliases are not generated.", ref="§2 C15"),
 }
 NOT_BUILT = "check not built yet in this session (planned, see DESIGN.md §2); nothing is claimed for it"
 def main():
